@@ -21,6 +21,10 @@ Local Open Scope list_scope.
 Inductive field :=
 | FID | FUUID | FEpicID | FIsEpic | FState | FTitle | FBody | FClaimedBy | FCreatedAt | FUpdatedAt.
 
+(** Element types of the local maps of the stateful fragment (bridge/HeapIR.v):
+    map[string]bool, map[string]int, map[string]struct{}. *)
+Inductive mapkind := KBool | KInt | KUnit.
+
 Inductive expr :=
 | EStr (s : string)                 (* string literal, or a named constant resolved to its value *)
 | EBool (b : bool)                  (* true / false *)
@@ -37,6 +41,9 @@ Inductive expr :=
 | ENot (a : expr)                   (* !a *)
 | EIsNil (v : string)               (* v == nil *)
 | ECall (f : string) (args : exprs) (* call of another translated function *)
+| EInt (z : Z)                      (* integer literal (stateful fragment) *)
+| EUnit                             (* struct{}{} (stateful fragment) *)
+| EMapGet (m : string) (k : expr)   (* m[k], m a local map variable: the element or the zero value (stateful fragment) *)
 | EUnknown (go : string)            (* not in the fragment; no value *)
 with exprs := XNil | XCons (e : expr) (r : exprs).
 
@@ -49,6 +56,15 @@ Inductive stmt :=
 | SRangeDeps (v gv : string) (key : expr) (body : block) (* for v := range gv.Deps[key] { body } *)
 | SRangeTasks (v gv : string) (body : block)           (* for _, v := range gv.Tasks { body } *)
 | SKeep                                                (* acc = append(acc, elem), tail position of a filter loop *)
+(* the stateful fragment: local maps / string slices live in a heap; only bridge/HeapIR.v runs these *)
+| SMakeMap (v : string) (k : mapkind)                  (* v := make(map[string]T) or v := map[string]T{} *)
+| SMapSet (m : string) (k e : expr)                    (* m[k] = e *)
+| SMapIncr (m : string) (k : expr)                     (* m[k]++ *)
+| SMapHas (ok m : string) (k : expr)                   (* _, ok := m[k] *)
+| SRangeKeys (v m : string) (body : block)             (* for v := range m { body }, m a local map *)
+| SMakeStrs (v : string)                               (* v := make([]string, 0, n) *)
+| SAppendStr (v : string) (e : expr)                   (* v = append(v, e) *)
+| SSortStrs (v : string)                               (* sort.Strings(v) *)
 | SUnknown (go : string)                               (* not in the fragment; error *)
 with block := BNil | BCons (s : stmt) (b : block).
 
@@ -61,7 +77,7 @@ Fixpoint xs (l : list expr) : exprs :=
 (** [fn_filter = true]: the body is (element-independent prelude ++ loop body) of a filtering
     loop; the element is kept iff execution reaches [SKeep]; [continue] or the end of the body
     drops it.  Otherwise an ordinary function: it must reach a [return]. *)
-Inductive ty := TString | TBool | TTask | TTaskSlice | TTaskMap | TGraph | TOther (go : string).
+Inductive ty := TString | TBool | TTask | TTaskSlice | TTaskMap | TGraph | TMap (k : mapkind) | TOther (go : string).
 Record fndef := FnDef { fn_params : list (string * ty); fn_filter : bool; fn_body : block }.
 Definition prog := list (string * fndef).
 
@@ -71,7 +87,9 @@ Inductive value :=
 | VStr (s : string) | VBool (b : bool) | VTime (z : time)
 | VTask (o : option task)      (* a *Task; [None] is nil *)
 | VGraph                       (* the *Graph (there is exactly one) *)
-| VSlice.                      (* a []*Task / map[string]*Task the fragment never inspects as a whole *)
+| VSlice                       (* a []*Task / map[string]*Task the fragment never inspects as a whole *)
+| VInt (z : Z) | VUnit         (* stateful fragment: an int, struct{}{} *)
+| VRef (r : nat).              (* stateful fragment: a local map / []string, by reference into the heap *)
 
 Definition env := list (string * value).
 
@@ -117,6 +135,7 @@ Definition eq_values (a b : value) : option bool :=
   match a, b with
   | VStr x, VStr y => Some (String.eqb x y)
   | VBool x, VBool y => Some (Bool.eqb x y)
+  | VInt x, VInt y => Some (Z.eqb x y)
   | _, _ => None
   end.
 
@@ -177,6 +196,9 @@ Section eval.
         end
     | ECall f args =>
         match eval_args args with Some vs => call f vs | None => None end
+    | EInt z => Some (VInt z)
+    | EUnit => Some VUnit
+    | EMapGet _ _ => None            (* there is no heap here: stuck *)
     | EUnknown _ => None
     end
   with eval_args (l : exprs) : option (list value) :=
@@ -243,6 +265,8 @@ Section exec.
           for_each (λ t, exec_block ((v, VTask (Some t)) :: ρ) body) ρ (go_tasks_values g)
         else OErr
     | SKeep => OReturn (VBool true)
+    | SMakeMap _ _ | SMapSet _ _ _ | SMapIncr _ _ | SMapHas _ _ _ | SRangeKeys _ _ _
+    | SMakeStrs _ | SAppendStr _ _ | SSortStrs _ => OErr      (* there is no heap here: stuck *)
     | SUnknown _ => OErr
     end
   with exec_block (ρ : env) (b : block) : outcome :=
@@ -257,7 +281,8 @@ Section exec.
   (** Parameters are bound by position; the declared Go type must fit the value. *)
   Definition fits (t : ty) (v : value) : bool :=
     match t, v with
-    | TString, VStr _ | TBool, VBool _ | TTask, VTask _ | TGraph, VGraph | TTaskSlice, VSlice | TTaskMap, VSlice => true
+    | TString, VStr _ | TBool, VBool _ | TTask, VTask _ | TGraph, VGraph | TTaskSlice, VSlice | TTaskMap, VSlice
+    | TMap _, VRef _ => true
     | _, _ => false
     end.
   Fixpoint bind_params (ps : list (string * ty)) (vs : list value) : option env :=
